@@ -111,6 +111,22 @@ static void do_op(const tgt_t *t, const op_t *op)
 		v.replace = op->replace;
 		rc = t->set(t->obj, &v);
 		printf(",%d,%d,%d,null,", op->replace, (int)rc, (int)v.error);
+		if (rc == JWT_VALUE_ERR_EXIST && !op->replace && op->name && op->name[0] && (n_ops & 1)) {
+			/* the application's reaction to EXIST: the very same request again with the replace flag switched on (the struct is not set
+			 * up anew; what the refused call left in it, the error included, is still there) */
+			snapshot(t);
+			printf("]\n[\"O\",%ld,%d,\"S\",%d,", cur_seq, cur_target, op->type);
+			vh_put_jstr(stdout, op->name); printf(",");
+			switch (op->type) {
+			case I: printf("%ld", op->ival); break;
+			case S: vh_put_jstr(stdout, op->sval); break;
+			case B: printf("%ld", op->ival); break;
+			default: vh_put_jstr(stdout, op->sval); break;
+			}
+			v.replace = 1;
+			rc = t->set(t->obj, &v);
+			printf(",1,%d,%d,null,", (int)rc, (int)v.error);
+		}
 	} else if (op->kind == 'G') {
 		switch (op->type) {
 		case I: jwt_set_GET_INT(&v, op->name); break;
